@@ -244,8 +244,20 @@ def discharge(law: Law, shape, pid: str, replay_ref: str) -> Ob:
 
 
 def eval_case_at(law: Law, shape, pt) -> tuple[Optional[bool], list]:
-    """Run the real functions at a concrete point; (assumptions hold?, residual values)."""
-    case = law.build(shape, PointGen(pt))
+    """Run the real functions at a concrete point; (assumptions hold?, residual values).
+    pt["__symbolic__"]: the real functions run on SYMBOLS and the numbers are substituted into their results afterwards -- the only way
+    to show a failure of code that behaves differently on symbols than on numbers (`x.is_nonzero` is None for a symbol)."""
+    if pt.get("__symbolic__"):
+        gen = GenericGen()
+        case = law.build(shape, gen)
+        byname = {n: v for n, v in pt.items() if not n.startswith("__")}
+
+        def put(e):
+            e = sp.sympify(e)
+            return e.xreplace({s_: byname[s_.name] for s_ in e.free_symbols if s_.name in byname})
+        case = Case([put(r) for r in case.residuals], [put(a) for a in case.assume], case.raises, case.thunk, case.axioms, case.note)
+    else:
+        case = law.build(shape, PointGen(pt))
     # coordinates / parameters that are not generator inputs (base scalars ...) get fixed seeded values too
     free = set()
     for r in list(case.residuals) + list(case.assume):
@@ -380,6 +392,31 @@ def find_failing_point(law: Law, shape, names, rng, tries=60, assum=None):
                 pass
         if bad:
             return pt
+    # nothing fails on numbers: run the real code on symbols and substitute afterwards
+    for _ in range(12):
+        pt = {n: sp.Rational(rng.randint(-9, 9), rng.randint(1, 4)) for n in names}
+        for n in names:
+            a = assum.get(n, {})
+            if a.get("positive"):
+                pt[n] = abs(pt[n]) + sp.Rational(1, 3)
+            elif a.get("nonnegative"):
+                pt[n] = abs(pt[n])
+            elif a.get("negative"):
+                pt[n] = -abs(pt[n]) - sp.Rational(1, 3)
+        pt["__seed__"] = rng.randint(0, 10 ** 6)
+        pt["__symbolic__"] = 1
+        try:
+            ok, vals = eval_case_at(law, shape, pt)
+        except Exception:
+            continue
+        if not ok:
+            continue
+        for v in vals:
+            try:
+                if v.is_number and not abs(complex(sp.N(v, 30))) <= 1e-12:
+                    return pt
+            except Exception:
+                pass
     return None
 
 
@@ -414,7 +451,7 @@ def replay_law(replay_ref: str, law_name: str, shape, pt):
             print("raises as the contract says")
             return
         raise AssertionError(f"{law_name} shape {shape}: expected {getattr(case.raises, '__name__', case.raises)}")
-    pt = {k: (int(v) if k == "__seed__" else sp.Rational(v)) for k, v in pt.items()}
+    pt = {k: (int(v) if k.startswith("__") else sp.Rational(v)) for k, v in pt.items()}
     ok, vals = eval_case_at(law, shape, pt)
     print("inputs", pt)
     print("residuals", vals)
